@@ -860,6 +860,11 @@ pub fn judge(c: &OpCase, publics: &[Fq]) -> Judgement {
             Ok(false) => Judgement::Inadmissible,
             Err(e) => Judgement::Wrong(e),
         },
+        "vh" => match crate::ops_hash::varsha::check(c, publics) {
+            Ok(true) => Judgement::Holds,
+            Ok(false) => Judgement::Inadmissible,
+            Err(e) => Judgement::Wrong(e),
+        },
         "sp" => match crate::ops_hash::sponge::check(c, publics) {
             Ok(true) => Judgement::Holds,
             Ok(false) => Judgement::Inadmissible,
@@ -915,7 +920,7 @@ pub fn expected_admissible(c: &OpCase) -> bool {
         "h" => crate::ops_hash::expected_admissible(c),
         "ng" => crate::ops_ng::expected_admissible(c),
         "rx" => crate::ops_parse::rx_expected_admissible(c),
-        "sp" => true,
+        "sp" | "vh" => true,
         "b64" => crate::ops_parse::b64_expected_admissible(c),
         _ => {
             let ins: Vec<Fq> = c.ins.iter().map(|x| x.0).collect();
@@ -940,7 +945,9 @@ pub fn all_ops() -> Vec<String> {
 }
 
 pub fn gen_case(rng: &mut Prng, op: &str) -> OpCase {
-    if op.starts_with("sp.") {
+    if op.starts_with("vh.") {
+        crate::ops_hash::varsha::gen_case(rng)
+    } else if op.starts_with("sp.") {
         crate::ops_hash::sponge::gen_case(rng)
     } else if op.starts_with("b64.") {
         crate::ops_parse::b64_gen_case(rng, op)
